@@ -118,6 +118,50 @@
 //@   ensures [C08.query_smart.sem,C10] r == (match self.contract_data_sem(storage.view(), address) { Err(e) => Err(e), Ok(cd) => match self.code_of(cd.code_id) { None => Err(AnyError), Some(h) => h.query_sem(window(storage.view(), contract_prefix(address)), querier.snap(), env_of(address, *block), msg@) } })
 //@   replace_re? "\\|handler, deps, env\\| (?P<C>handler\\.query\\(deps, env, msg\\))" => "|handler: &dyn Contract<ExecC, QueryC>, deps: Deps<QueryC>, env: Env| -> (cr: AnyResult<Binary>) ensures cr == handler.query_sem(deps.storage.view(), deps.querier.snap(), env, msg@) { \\g<C> }"
 //@ end
+    // C08 / C10 / C11 / C12, from the statements: a wasm query names its contract by address (validated); a smart query is
+    // answered by the code the contract currently runs, over the contract's own window and the given querier; a raw
+    // query returns the contract's own value under the key (empty when absent); contract-info reports the recorded code
+    // id, creator and admin; code-info is answered exactly for the ids in use, with the recorded creator and checksum
+    pub open spec fn wasm_query_sem(&self, qsnap: (St, BlockInfo), st: St, block: BlockInfo, request: WasmQuery) -> AnyResult<Binary> {
+        match request {
+            WasmQuery::Smart { contract_addr, msg } => {
+                if !spec_valid_addr(contract_addr@) { Err(AnyError) } else {
+                    let address = Addr { s: contract_addr };
+                    match self.contract_data_sem(st, address) { Err(e) => Err(e), Ok(cd) => match self.code_of(cd.code_id) { None => Err(AnyError), Some(h) => h.query_sem(window(st, contract_prefix(address)), qsnap, env_of(address, block), msg.b@) } }
+                }
+            }
+            WasmQuery::Raw { contract_addr, key } => {
+                if !spec_valid_addr(contract_addr@) { Err(AnyError) } else {
+                    let w = window(st, contract_prefix(Addr { s: contract_addr }));
+                    Ok(Binary { b: vec_of(if w.contains_key(key.b@) { w[key.b@] } else { Seq::<u8>::empty() }) })
+                }
+            }
+            WasmQuery::ContractInfo { contract_addr } => {
+                if !spec_valid_addr(contract_addr@) { Err(AnyError) } else {
+                    match self.contract_data_sem(st, Addr { s: contract_addr }) {
+                        Err(e) => Err(AnyError),
+                        Ok(cd) => { let resp = ContractInfoResponse { code_id: cd.code_id, creator: cd.creator, admin: cd.admin, pinned: false, ibc_port: None };
+                                    if spec_json_ok(resp) { Ok(spec_json(resp)) } else { Err(AnyError) } }
+                    }
+                }
+            }
+            WasmQuery::CodeInfo { code_id } => {
+                if !(code_id >= 1 && self.code_data@.contains_key(code_id)) { Err(AnyError) } else {
+                    let resp = CodeInfoResponse { code_id, creator: self.code_data@[code_id].creator, checksum: self.code_data@[code_id].checksum };
+                    if spec_json_ok(resp) { Ok(spec_json(resp)) } else { Err(AnyError) }
+                }
+            }
+        }
+    }
+//@ fn src/wasm.rs :: Wasm for WasmKeeper :: query
+//@   ret r
+//@   ensures [C08.wasm_query.sem,C10,C11,C12] r == self.wasm_query_sem(querier.snap(), storage.view(), *block, request)
+//@   replace* ".map_err(Into::into)" => ".map_err(|vx_e: StdError| -> (vx_o: AnyError) { AnyError })"
+//@   replace? "block, msg.into())" => "block, msg.to_vec())"
+//@   replace? "storage, &key))" => "storage, key.as_slice()))"
+//@   replace_re? "_ => unimplemented!\\(.*?\\),\\n" => ""
+//@   begin broadcast use {axiom_vec_canon, axiom_vec_of_view, axiom_str_canon, axiom_str_of_view, lemma_str_ext_b, lemma_vec_ext_b};
+//@ end
 //@ fn src/wasm.rs :: Wasm for WasmKeeper :: dump_wasm_raw
 //@   ret r
 //@   ensures [C08.dump.own_window] is_range_of(recs_view(r@), window(storage.view(), contract_prefix(*address)), None, None, Order::Ascending)
